@@ -297,3 +297,20 @@ fn from_multiple_with_options(s: &str, options: Options) -> (r: Result<TargetVec
 fn ty_str_from_utf8<'a>(b: &'a [u8]) -> (r: Result<&'a str, ()>)
     ensures match r { Ok(s) => valid_utf8(b@) && s.spec_bytes() == b@, Err(_) => !valid_utf8(b@) },
 { unimplemented!() }
+
+// ---- deserialize_seq: the three sequence accesses handed to the visitor ----
+uninterp spec fn vis_seq_empty(v: Vis) -> Result<VisVal, Error>;
+uninterp spec fn vis_seq_bytes(v: Vis, data: Seq<u8>) -> Result<VisVal, Error>;
+uninterp spec fn vis_seq_live<'de>(v: Vis, rest: Seq<Ev<'de>>, cfg: Cfg) -> Result<VisVal, Error>;
+impl Vis {
+    /// `visitor.visit_seq(EmptySeq)`
+    #[verifier::external_body] fn visit_seq_empty(self) -> (r: Result<VisVal, Error>) ensures r == vis_seq_empty(self) { unimplemented!() }
+    /// `visitor.visit_seq(ByteSeq { data, idx: 0 })`
+    #[verifier::external_body] fn visit_seq_bytes(self, data: Vec<u8>) -> (r: Result<VisVal, Error>) ensures r == vis_seq_bytes(self, data@) { unimplemented!() }
+    /// `visitor.visit_seq(SA { ev, cfg })`: the visitor pulls elements through SA::next_element_seed (contract above);
+    /// how many it pulls is its own business, so nothing is known about the cursor afterwards
+    #[verifier::external_body]
+    fn visit_seq_live<'de>(self, ev: &mut dyn Events<'de>, cfg: Cfg) -> (r: Result<VisVal, Error>)
+        ensures r == vis_seq_live(self, old(ev).rest(), cfg),
+    { unimplemented!() }
+}
